@@ -111,7 +111,7 @@ def run_c12(sc, q, rnd):
         for line in fi:
             c = json.loads(line)
             for j, r in enumerate(c.get("reads", [])):
-                if r.get("result") != "ok" or "sii" not in r or len(r["sii"]) >= 400 or nreg >= (500 if q else 20000):
+                if r.get("result") != "ok" or "sii" not in r or len(r["sii"]) >= 400 or nreg >= (500 if q else 4000):
                     continue
                 fo.write(json.dumps(dict(case=dict(id=f"{c['case']['id']}#{j}"), word=r["word"], len=r["len"], n=r.get("n", 0),
                                          chunk=8 if c["case"]["sii8"] else 4,
